@@ -241,7 +241,18 @@ pub fn nucleo_script(rng: &mut SplitMix, focus: &str, thorough: bool) -> NucleoS
     let est = pick(rng, &[150u64, 400, 1000, 2500]);
     let has_big = writers.iter().flatten().any(|o| matches!(o, WOp::ExtendBig { .. }));
     let sched = SchedCfg::generate(rng, est, nw as u32, if has_big { 60_000_000 } else { 400_000 });
+    // a quarter of the runs of the worlds whose protocols depend on flag ordering use the
+    // weak-memory mode (store buffers); the others stay sequentially consistent
+    let weak = match focus {
+        "C13" => (rng.below(3) == 0).then(|| pick(rng, &[0u32, 50, 300])),
+        "C06" | "C12" | "C19" | "C07" | "mix" => (rng.below(6) == 0).then(|| pick(rng, &[0u32, 50, 300])),
+        _ => None,
+    };
+    // rarely more pool threads than any machine has cores (per-thread state indexed by the pool
+    // thread index must really be per thread)
+    let pool_threads = if rng.below(40) == 0 { pick(rng, &[17u32, 33]) } else { pool_threads };
     NucleoScript {
+        weak,
         pool_threads,
         columns,
         capacity,
